@@ -170,6 +170,13 @@ func (x *Exec) remat(st *State, v ssa.Value) Value {
 			x.step(st, x.fx.fn, ins, true)
 			return st.env[v]
 		}
+	case *ssa.Call:
+		if b, ok := ins.Call.Value.(*ssa.Builtin); ok && (b.Name() == "len" || b.Name() == "cap" || b.Name() == "min" || b.Name() == "max") {
+			quiet := st.fx.eng.quiet(st)
+			defer quiet()
+			x.step(st, x.fx.fn, ins, true)
+			return st.env[v]
+		}
 	}
 	val := st.named(v.Type(), "v:"+v.Name())
 	// a closure value keeps its function identity
@@ -237,7 +244,13 @@ func (x *Exec) step(st *State, fn *ssa.Function, ins ssa.Instruction, top bool) 
 				x.panicObl(st, ins, "nonnil", "(not (= "+val.T+" 0))", "nil stored into a location of a type declared non-nil")
 			}
 		}
-		st.storeAt(x.addrOf(st, a, ins), val)
+		ad := x.addrOf(st, a, ins)
+		ix := ""
+		if len(ad.Idx) > 0 {
+			ix = ad.Idx[0]
+		}
+		x.frameCheck(st, ins, ad.Key, ad.Root, ix, ad.Key)
+		st.storeAt(ad, val)
 	case *ssa.UnOp:
 		xv := x.get(st, ins.X)
 		switch ins.Op {
@@ -345,6 +358,9 @@ func (x *Exec) step(st *State, fn *ssa.Function, ins ssa.Instruction, top bool) 
 		st.assume(fmt.Sprintf("(= (dyn_type %s) %s)", v.T, x.typeTag(st, ins.X.Type())))
 		if xv.K < VSlice {
 			st.assume(fmt.Sprintf("(= (%s %s) %s)", ifaceValFn(xv.K), v.T, xv.T))
+		}
+		if xv.K == VRef {
+			v.Fs = []Value{xv} // dynamic value known on this path (used by modifies dyn(x).*)
 		}
 		st.env[ins] = v
 	case *ssa.ChangeInterface:
@@ -717,9 +733,13 @@ func (x *Exec) convert(st *State, ins *ssa.Convert) Value {
 	case fk == VReal && tk == VReal:
 		return Value{K: VReal, T: v.T, Ty: to}
 	case fk == VReal && tk == VInt:
+		// float -> int: truncation when representable; otherwise an implementation-defined but
+		// deterministic value (uninterpreted function of the operand)
 		tr := fmt.Sprintf("(ite (>= %s 0.0) (to_int %s) (- (to_int (- %s))))", v.T, v.T, v.T)
-		r := st.fresh(to, "f2i")
-		st.assume(fmt.Sprintf("(=> %s (= %s %s))", inRange(tr, to), r.T, tr))
+		r := Value{K: VInt, T: "(f2i_any " + v.T + ")", Ty: to}
+		lo, hi, _ := intRange(to)
+		r.T = fmt.Sprintf("(ite %s %s (f2i_oor %s %s))", inRange(tr, to), tr, v.T, smtInt(hi))
+		st.assume(fmt.Sprintf("(and (<= %s (f2i_oor %s %s)) (<= (f2i_oor %s %s) %s))", smtInt(lo), v.T, smtInt(hi), v.T, smtInt(hi), smtInt(hi)))
 		return r
 	case fk == VStr && tk == VSlice:
 		// []byte(s) / []rune(s)
